@@ -81,6 +81,21 @@ def tiny_conversion(ctx, q, bs, desc):
         arr = gen.cube(rng, n)
         conv.numpy_to_sgz(arr, out, q, bs)
         probs = conv.fidelity_problems(out, arr, q)
+        if not probs:
+            # "reads back faithfully" is about every reader, each of which has its own code per layout class and rate
+            # (z-slices of N x M x 4 layouts, inline / crossline sets of 4 x 4 x N ones, the general chunk reader)
+            from seismic_zfp.read import SgzReader
+            ref = spec.reference_image(arr, q / 4)
+            with SgzReader(out) as r:
+                reads = [(f'read_zslice({z})', lambda z=z: r.read_zslice(z), ref[:, :, z]) for z in sorted({0, n[2] // 2, n[2] - 1})]
+                reads += [(f'read_inline({i})', lambda i=i: r.read_inline(i), ref[i]) for i in sorted({0, n[0] - 1})]
+                reads += [(f'read_crossline({x})', lambda x=x: r.read_crossline(x), ref[:, x]) for x in sorted({0, n[1] - 1})]
+                reads += [(f'get_trace({t})', lambda t=t: r.get_trace(t), ref.reshape(-1, n[2])[t]) for t in sorted({0, n[0] * n[1] - 1})]
+                reads += [('read_subvolume(1..)', lambda: r.read_subvolume(1, n[0], 1, n[1], 1, n[2]), ref[1:, 1:, 1:])]
+                for name, fn, want in reads:
+                    got = np.asarray(fn())
+                    if got.shape != want.shape or not np.array_equal(got.view(np.uint32), np.ascontiguousarray(want).view(np.uint32)):
+                        probs.append(f'{name} differs from the decoded volume')
     probs += spec.conformance_problems(out)
     for p in probs:
         ctx.fail(f'accepted setting gives an unfaithful file: {p}', desc)
@@ -225,7 +240,7 @@ def run(ctx):
         conv_every = ctx.n(7, 1)
         for k, (q, bs) in enumerate(valid3):
             for j, (r, b) in enumerate(presentations(q, bs)):
-                check(r, b, False, must_accept=f'ok {q} {bs[0]} {bs[1]} {bs[2]}', convert=(j == 0 and k % conv_every == ctx.seed % conv_every))
+                check(r, b, False, must_accept=f'ok {q} {bs[0]} {bs[1]} {bs[2]}', convert=(j == 0 and (k % conv_every == ctx.seed % conv_every or (bs[2] == 4 and q < 4))))
         for k, (q, bs) in enumerate(valid2):
             for j, (r, b) in enumerate(presentations(q, bs)):
                 check(r, b, True, must_accept=f'ok {q} {bs[0]} {bs[1]} {bs[2]}', convert=(j == 0 and k % 3 == ctx.seed % 3))
